@@ -213,12 +213,60 @@ fn gen_splits(r: &mut Rng, stream: &[u8], idx: &mut usize, bounds: &[usize]) -> 
     fix(parts)
 }
 
+/// a block-fetch `Block` message (same bytes in both stacks) whose encoding is exactly `total` bytes long
+fn block_msg_of_len(r: &mut Rng, total: usize) -> Vec<u8> {
+    // 82 04 d8 18 <bytes head> body
+    let mut body = if total >= 4 + 5 + 65536 { total - 9 } else { total.saturating_sub(7) };
+    loop {
+        let m = enc(&n1::blockfetch::Message::Block { body: vec![0u8; body] });
+        if m.len() == total { let mut b = r.bytes(body); if b.is_empty() { b = vec![]; } return enc(&n1::blockfetch::Message::Block { body: b }); }
+        if m.len() > total { body -= 1 } else { body += 1 }
+    }
+}
+
+/// streams whose message boundaries fall exactly on, one before and one after a multiple of the segment maximum,
+/// cut the way `send_msg_chunks` / `into_chunks` cut (65535-byte segments from the start of the stream)
+fn boundary_case(r: &mut Rng, net2: bool) -> Vec<String> {
+    let mut ops = vec![];
+    let small = |r: &mut Rng| -> Vec<u8> { enc(&match r.below(3) { 0 => n1::blockfetch::Message::StartBatch, 1 => n1::blockfetch::Message::BatchDone, _ => n1::blockfetch::Message::Block { body: small_blob(r) } }) };
+    let k = if r.chance(1, 3) { 2 } else { 1 };
+    let delta = [0isize, 0, -1, 1][r.below(4) as usize];
+    let mut msgs: Vec<Vec<u8>> = (0..r.below(3)).map(|_| small(r)).collect();
+    let l0: usize = msgs.iter().map(|m| m.len()).sum();
+    let target = (k * 65535) as isize + delta;
+    msgs.push(block_msg_of_len(r, (target as usize) - l0));
+    let trailing = r.chance(1, 3);
+    if trailing { msgs.push(small(r)); }
+    let stream: Vec<u8> = msgs.concat();
+    let seg: Vec<Vec<u8>> = stream.chunks(65535).map(|c| c.to_vec()).collect();
+    // same boundaries, but reached through smaller segments first
+    let mut alt: Vec<Vec<u8>> = vec![];
+    { let cut = r.range(1, 2000) as usize; let mut rest = &stream[..]; if rest.len() > cut { alt.push(rest[..cut].to_vec()); rest = &rest[cut..]; } for c in rest.chunks(65535) { alt.push(c.to_vec()); } }
+    if !net2 {
+        ops.push(format!("sent {}", msgs.iter().map(|m| hex(m)).collect::<Vec<_>>().join(" ")));
+        ops.push(format!("n1 blockfetch valid {} {}", msgs.len(), seg.iter().map(|c| hex(c)).collect::<Vec<_>>().join(" ")));
+        ops.push(format!("n1 blockfetch valid {} {}", msgs.len(), alt.iter().map(|c| hex(c)).collect::<Vec<_>>().join(" ")));
+    } else {
+        ops.push(format!("sent2 3:{} 8:-", msgs.iter().map(|m| hex::encode(m)).collect::<Vec<_>>().join(",")));
+        let dir = if r.chance(1, 2) { 0x8000u16 } else { 0 };
+        ops.push(format!("n2 valid {}", seg.iter().map(|c| format!("{}:{}", 3 | dir, hex(c))).collect::<Vec<_>>().join(" ")));
+        ops.push(format!("n2 valid {}", alt.iter().map(|c| format!("{}:{}", 3 | dir, hex(c))).collect::<Vec<_>>().join(" ")));
+    }
+    ops
+}
+
 pub fn generate(g: &mut Gen) {
     let mut idx = 0usize;
     for i in 0..g.cases {
         let r = &mut g.rng;
         let mut ops = vec![];
         let net2 = i % 2 == 1;
+        if i % 80 == 6 || i % 80 == 47 {
+            // a few big cases: message ends exactly at k x 65535 (and one byte before / after)
+            let ops = boundary_case(r, net2);
+            g.case(ops);
+            continue;
+        }
         let n_msgs = r.range(1, 8) as usize;
         if !net2 {
             let proto = N1_PROTOS[(i / 2) % N1_PROTOS.len()];
@@ -572,7 +620,9 @@ pub fn run_case(case: &Case, out: &mut Out) {
                             let mut p = 0; for c in &chunks { p += c.len(); if p < total && !bounds.contains(&p) { inside_cut = true; } }
                             if msgs != sent1 || end != "done" {
                                 let k = msgs.iter().zip(sent1.iter()).take_while(|(a, b)| a == b).count();
-                                out.viol(format!("reassembly-network1 proto={proto}"), format!("{} chunks; sent {} messages, received {} (first difference at #{k}: sent {} got {}), end={end}",
+                                // a complete message left in the buffer while the receiver waits = stall
+                                let key = if end == "blocked" { format!("reassembly-network1 stall proto={proto}") } else { format!("reassembly-network1 proto={proto}") };
+                                out.viol(key, format!("{} chunks; sent {} messages, received {} (first difference at #{k}: sent {} got {}), end={end}",
                                     n_chunks, sent1.len(), msgs.len(), sent1.get(k).map(|m| hex(m)).unwrap_or("-".into()), msgs.get(k).map(|m| hex(m)).unwrap_or("-".into())));
                             }
                         }
